@@ -23,7 +23,7 @@ type propC03 struct{}
 func init() { RegisterProperty(propC03{}) }
 
 func (propC03) ID() string      { return "C03" }
-func (propC03) Modes() []string { return []string{"matrix"} }
+func (propC03) Modes() []string { return []string{"matrix", "link-faults"} }
 
 // ---------- the OpenAPI document as a third party sees it ----------
 
@@ -219,6 +219,35 @@ func openAPIRequest(rpc *spec.RPC, op *oaOperation, req proto.Message, hdrs [][2
 func (propC03) Draw(rt *rapid.T, w *WorldDesc, mode string) *Plan {
 	p := &Plan{}
 	methods := w.AllMethods()
+	if mode == "link-faults" {
+		// The request line a client emits is the RPC's request line on EVERY attempt: the first
+		// attempt of a call meets a transport failure (connection reset before or while the
+		// response arrives, no HTTP status), and whatever else the client then sends for this
+		// call - a retry, a fallback - must carry the same verb, path and query as the first.
+		nOps := rapid.IntRange(1, 3).Draw(rt, "nOps")
+		for i := 0; i < nOps; i++ {
+			l := fmt.Sprintf("op%d", i)
+			md := methods[rapid.IntRange(0, len(methods)-1).Draw(rt, l+".rpc")]
+			rpc := w.RPC(md.Key)
+			req := drawValidReq(rt, w, md, l+".req")
+			resp := NewFilled(rt, md.NewResp, l+".resp", nil)
+			scrubNonFinite(req.ProtoReflect(), 0)
+			scrubNonFinite(resp.ProtoReflect(), 0)
+			op := &Op{ID: i, RPC: md.Key, Client: rapid.SampledFrom([]string{"ts", "ts", "go"}).Draw(rt, l+".client"), Server: rapid.SampledFrom([]string{"go", "ts"}).Draw(rt, l+".server"),
+				App: AppBehaviour{Kind: "respond"}}
+			for _, h := range ValidHeaders(rpc, 0) {
+				op.Opts = append(op.Opts, Opt{Kind: "header", Key: h[0], Value: h[1]})
+			}
+			op.ReqBin, op.RespBin = mustMarshal(req), mustMarshal(resp)
+			op.ReqJSON, op.RespJSON = jsonOf(req), jsonOf(resp)
+			kind := rapid.SampledFrom([]string{"reset", "truncate"}).Draw(rt, l+".fault")
+			op.Faults = []Fault{{Kind: kind, Dir: "resp", At: rapid.IntRange(0, 30).Draw(rt, l+".at"), InHead: rapid.Bool().Draw(rt, l+".inhead")}}
+			op.DeadlineMs = 60000
+			p.Ops = append(p.Ops, op)
+		}
+		p.Schedule = drawSchedule(rt, 32)
+		return p
+	}
 	md := methods[rapid.IntRange(0, len(methods)-1).Draw(rt, "rpc")]
 	rpc := w.RPC(md.Key)
 	req := drawValidReq(rt, w, md, "req")
@@ -369,6 +398,9 @@ func clientKind(c *CallState) string {
 }
 
 func (propC03) Check(k *Kernel, cov *Coverage) *Violation {
+	if k.Plan.Mode == "link-faults" {
+		return checkC03Attempts(k, cov)
+	}
 	if len(k.Calls) == 0 {
 		return nil
 	}
@@ -568,4 +600,30 @@ func requiredQueryPresent(rpc *spec.RPC, req proto.Message) bool {
 		}
 	}
 	return false
+}
+
+// checkC03Attempts: every request a call put on the wire has the request line of the first.
+func checkC03Attempts(k *Kernel, cov *Coverage) *Violation {
+	for _, c := range k.Calls {
+		pair := c.Op.Client + ">" + c.Op.Server
+		if len(c.Wire) < 2 {
+			cov.Tuple(k.W.Name, c.Op.RPC, pair, "link-fault", fmt.Sprintf("attempts=%d", len(c.Wire)))
+			continue
+		}
+		first := c.Wire[0]
+		for i, wr := range c.Wire[1:] {
+			if wr.Verb != first.Verb || wr.Target != first.Target {
+				what := "path"
+				if wr.Verb != first.Verb {
+					what = "verb"
+				} else if strings.SplitN(wr.Target, "?", 2)[0] == strings.SplitN(first.Target, "?", 2)[0] {
+					what = "query"
+				}
+				return &Violation{Class: "attempts-disagree", Signature: "C03|attempts-disagree|" + pair + "|" + what,
+					Detail: fmt.Sprintf("op %d %s: after a transport failure the %s client sent attempt %d as %q, the first attempt was %q", c.Op.ID, c.Op.RPC, c.Op.Client, i+2, wr.Verb+" "+wr.Target, first.Verb+" "+first.Target)}
+			}
+		}
+		cov.Tuple(k.W.Name, c.Op.RPC, pair, "link-fault", fmt.Sprintf("attempts=%d", len(c.Wire)), "same-request-line")
+	}
+	return nil
 }
